@@ -132,3 +132,48 @@ theorem roundtrip_R (hT : T.ternL ≤ T.questL) {e : Expr} {ts : List Tok} (hR :
   simp only [parseTop, this]
 
 end UtapModel.Pratt
+
+namespace UtapModel.Pratt
+variable (T : Tbl) (mt : Nat)
+
+/-- unary plus is the identity: `+ e` parses to the tree of `e` -/
+theorem unary_plus (hT : T.ternL ≤ T.questL) {t : Nat} {e : Expr} {ts : List Tok}
+    (h1 : T.isPre t = true) (h2 : T.prePlus t = true) (hR : R T mt false (T.mn (T.pp t)) e ts) :
+    parseTop T (.sym t :: ts) = some e := by
+  have hm := main T mt hT hR
+  simp only [Goal] at hm
+  have hin := hm (T.mn (T.pp t)) [] (e, []) (Nat.le_refl _) (safe_nil T _) (stopAll T _ e [] (by rfl))
+  have hstart := (R_start T mt hR rfl []).2
+  simp only [List.append_nil] at hin hstart
+  unfold parseTop
+  simp only [List.length_cons]
+  rw [parseE_sym T _ 0 t ts hstart]
+  simp only [h1, if_true, hin (ts.length + 1) (by simp), h2]
+  rw [loop_stop T _ 0 e [] rfl]
+
+/-- `a imply b` is parsed as `(not a) or b` (the tree the builder makes of it) -/
+theorem imply_parse (hT : T.ternL ≤ T.questL) {t : Nat} {a b : Expr} {ta tb : List Tok}
+    (h1 : T.isBin t = true) (h2 : T.isImply t = true) (h3 : T.isPost t = false)
+    (ha : R T mt false (T.lctx (T.bp t)) a ta) (hb : R T mt false (T.mn (T.bp t)) b tb) :
+    parseTop T (ta ++ [.sym t] ++ tb) = some (.bin T.orTok (.pre T.notTok a) b) := by
+  have hma := main T mt hT ha
+  have hmb := main T mt hT hb
+  simp only [Goal] at hma hmb
+  have e1 : ta ++ [Tok.sym t] ++ tb = ta ++ (Tok.sym t :: (tb ++ [])) := by simp
+  unfold parseTop
+  rw [e1]
+  have := hma 0 (Tok.sym t :: (tb ++ [])) (.bin T.orTok (.pre T.notTok a) b, []) (Nat.zero_le _) (safe_sym_bin T h3)
+    (by
+      intro g hg
+      obtain ⟨g', rfl⟩ := succ_of_le hg
+      rw [loop_sym]
+      simp only [h1, Bool.true_and, decide_eq_true_eq, Nat.zero_le, if_true]
+      have hin := hmb (T.mn (T.bp t)) [] (b, []) (Nat.le_refl _) (safe_nil T _) (stopAll T _ b [] (by rfl)) g'
+        (by simp only [List.length_cons, List.length_append, List.length_nil] at hg ⊢; omega)
+      simp only [hin, Tbl.mkBin, h2, if_true]
+      obtain ⟨g'', rfl⟩ := succ_of_le (n := 0) (f := g') (by simp only [List.length_cons] at hg; omega)
+      exact loop_stop T g'' 0 _ [] rfl)
+    ((ta ++ Tok.sym t :: (tb ++ [])).length + 1) (Nat.le_refl _)
+  simp only [this]
+
+end UtapModel.Pratt
